@@ -1,11 +1,13 @@
 (* Eng/Model.v — C20: an engine (engine.KVEngine + one WriteBatch) driven by a script, as the
    harness harness/cmd/engine drives the real engines: batch operations, commit / clear / new batch,
    point reads, the two range-iterator constructors of engine/iterator.go, raw cursor scripts.
-   The engine kind tells which cursor the engine provides: KBounded = an ideal cursor clamped to the
-   iterator bounds (pebble, rocksdb), KPlain = an ideal cursor over the whole store (mem with the btree or
-   skiplist index), KRadix = the radix iterator of Eng/RadixIter.v over the whole store (mem, the default).
+   The engine kind (Eng/GenIter.v) tells which cursor the engine provides: KBounded = an ideal cursor clamped
+   to the iterator bounds (pebble), KPrefix = clamped and confined to one 3-byte prefix (rocksdb), KPlain = an
+   ideal cursor over the whole store (mem with the btree or skiplist index), KRadix = the radix iterator of
+   Eng/RadixIter.v over the whole store (mem, the default). The range iterators are the generic wrapper of
+   Eng/GenIter.v run over that cursor.
    No proofs in this file. *)
-From ZV Require Export Common.Bytes Eng.SortedMap Eng.Batch Eng.Cursor Eng.RangeIter Eng.RadixIter.
+From ZV Require Export Common.Bytes Eng.SortedMap Eng.Batch Eng.Cursor Eng.RangeIter Eng.RadixIter Eng.GenIter.
 Open Scope N_scope.
 
 Inductive step :=
@@ -26,9 +28,6 @@ Inductive result :=
 | RKVs (l : option (list kv))          (* None = the model faulted (out of fuel) *)
 | RCursor (l : list cres).
 
-Inductive ekind := KRadix | KPlain | KBounded.
-Definition kbounded (k : ekind) : bool := match k with KBounded => true | _ => false end.
-
 Definition strip_kvs (vt : N) (l : option (list kv)) : option (list kv) :=
   match l with
   | Some l => Some (map (fun e => (fst e, strip_ts vt (snd e))) l)
@@ -36,7 +35,6 @@ Definition strip_kvs (vt : N) (l : option (list kv)) : option (list kv) :=
   end.
 
 Definition run_step (k : ekind) (d : db) (s : step) : db * result :=
-  let bounded := kbounded k in
   match s with
   | SPut k v => (db_add d (BPut k v), RNone)
   | SDel k => (db_add d (BDel k), RNone)
@@ -49,13 +47,10 @@ Definition run_step (k : ekind) (d : db) (s : step) : db * result :=
   | SGet k => (d, RVal (db_get d k))
   | SExist k => (d, RBool (db_exist d k))
   | SMultiGet ks => (d, RVals (db_multi_get d ks))
-  | SIter o vt => (d, RKVs (strip_kvs vt (db_range_limit false bounded (committed d) o)))
-  | SRangeIter o vt => (d, RKVs (strip_kvs vt (db_range false bounded (committed d) o)))
+  | SIter o vt => (d, RKVs (strip_kvs vt (engine_range_limit false k (committed d) o)))
+  | SRangeIter o vt => (d, RKVs (strip_kvs vt (engine_range_limit false k (committed d) (no_limit o))))
   | SCursor mn mx tp ops =>
-      match k with
-      | KRadix => (d, RCursor (rops_run false (r_new (committed d)) ops))
-      | _ => (d, RCursor (cops_run false (get_iterator bounded mn mx tp (committed d)) ops))
-      end
+      (d, RCursor (engine_cursor_script k mn mx tp (committed d) ops))
   end.
 
 Fixpoint run_script (k : ekind) (d : db) (ss : list step) : list result :=
